@@ -58,13 +58,16 @@ func (ps *PushContext) mergeDestinationRule(p *consolidatedDestRules, destRuleCo
 	if mdrList, exists := destRules[resolvedHost]; exists {
 		// `appendSeparately` determines if the incoming destination rule would become a new unique entry in the processedDestRules list.
 		appendSeparately := true
+		sawEqualExportTo, sawNarrowerExportTo := false, false
 		for _, mdr := range mdrList {
 			if features.EnableEnhancedDestinationRuleMerge {
 				if exportToSet.Equals(mdr.exportTo) {
 					appendSeparately = false
+					sawEqualExportTo = true
 				} else if len(mdr.exportTo) > 0 && exportToSet.SupersetOf(mdr.exportTo) {
 					// If the new exportTo is superset of existing, merge and also append as a standalone one
 					appendSeparately = true
+					sawNarrowerExportTo = true
 				} else {
 					// can not merge with existing one, append as a standalone one
 					appendSeparately = true
@@ -135,6 +138,11 @@ func (ps *PushContext) mergeDestinationRule(p *consolidatedDestRules, destRuleCo
 				// user authored. Same precedence: user fields win.
 				mergedRule.TrafficPolicy = mergeBackendPolicyTrafficPolicy(rule.TrafficPolicy, mergedRule.TrafficPolicy)
 			}
+		}
+		if sawNarrowerExportTo && !sawEqualExportTo {
+			// The rule was merged into rule(s) exported to fewer namespaces; it must also stay a rule of its own,
+			// otherwise the namespaces only it is exported to never see it.
+			appendSeparately = true
 		}
 		if appendSeparately {
 			destRules[resolvedHost] = append(destRules[resolvedHost], ConvertConsolidatedDestRule(&destRuleConfig, exportToSet))
